@@ -1349,7 +1349,9 @@ fn main() {
                 _ => None,
             }
         } else {
-            prev.take()
+            // the previous account, unless it is the very same key material (fixed-pattern seeds on
+            // two networks that share a coin type would make the "unrelated" key the same key)
+            prev.take().filter(|p| !(p.seed == a.seed && p.account == a.account && coin_type(p.net) == coin_type(a.net)))
         };
         let Some(other) = other.or_else(|| gen_account(&mut c, net)) else { continue };
         c.r.count("accounts", 1);
